@@ -110,7 +110,8 @@ var plans = map[string]Plan{
 		},
 	},
 	"C01": {
-		Pkg: "c01",
+		Pkg:   "c01",
+		Level: "translation_validation",
 		Runs: []Run{
 			{Test: "^TestProps$/^lockstep$", Checks: checks(1500, 40000), Shards: shards(6, 16)},
 		},
@@ -120,6 +121,18 @@ var plans = map[string]Plan{
 			"inputs change only at retire boundaries, identically on both sides; valid is held high; the output environment echoes valid as received (4-phase consumer)",
 			"the co-implemented table (harness/c01/table.go) is part of the oracle; opcodes outside it are not compared (reasons listed there)",
 			"comparison stops at end of program (simulator halts, hardware runs on) and before a division/modulo by zero",
+		},
+	},
+	"C02": {
+		Pkg:   "c02",
+		Level: "translation_validation",
+		Runs: []Run{
+			{Test: "^TestProps$/^whole_machine$", Checks: checks(150, 4000), Shards: shards(6, 16)},
+		},
+		Assumptions: []string{
+			"the files written by Bondmachine.Write_verilog (iverilog flavour, empty simbox, no board modules) are executed by /verif's 2-state interpreter with power-up zero",
+			"only value sequences are compared, never cycle numbers; streams are compared prefix-wise up to the shorter one (the hardware run gets four times the simulator's tick budget)",
+			"a stream mismatch preceded by the precondition monitor of a recorded handshake finding (D4, D5 of C04; D12 of C01) is counted as excluded",
 		},
 	},
 }
